@@ -158,11 +158,19 @@ func analyzeFilter(r *an.Run, key string, fs filterSite, pos token.Pos) {
 		c, ok := v.(*ssa.Call)
 		return ok && an.IsCallTo(c, "(*go/ast.Comment)."+method) && elem(c.Call.Args[0])
 	}
-	classify := func(c ssa.Value) string {
+	var classifyWith func(c ssa.Value, posOf func(ssa.Value, string) bool, isLo, isHi func(ssa.Value) bool, depth int) string
+	classify := func(c ssa.Value) string { return classifyWith(c, posOf, fs.isLo, fs.isHi, 0) }
+	classifyWith = func(c ssa.Value, posOf func(ssa.Value, string) bool, isLo, isHi func(ssa.Value) bool, depth int) string {
+		if call, ok := c.(*ssa.Call); ok && depth == 0 {
+			// a private predicate of the comment and the interval: its own
+			// decision table must be the containment test (or its negation)
+			return containmentPredicate(call, func(v ssa.Value) bool { return elem(v) }, classifyWith)
+		}
 		cmp, ok := c.(*ssa.BinOp)
 		if !ok {
 			return ""
 		}
+		fs := filterSite{isLo: isLo, isHi: isHi}
 		switch {
 		case posOf(cmp.X, "Pos") && fs.isLo(cmp.Y):
 			switch cmp.Op {
@@ -222,6 +230,9 @@ func analyzeFilter(r *an.Run, key string, fs filterSite, pos token.Pos) {
 		hi, hiK := get(p, "end<=end")
 		inside := loK && lo && hiK && hi
 		outside := (loK && !lo) || (hiK && !hi)
+		if in, k := get(p, "inside"); k {
+			inside, outside = in, !in
+		}
 		if !(inside || outside) {
 			good = false
 		}
@@ -342,6 +353,16 @@ func c17FilterOnly(r *an.Run) {
 					continue
 				}
 				if iff, ok := b.Instrs[len(b.Instrs)-1].(*ssa.If); ok {
+					if pc, _ := an.StripNot(iff.Cond); pc != nil {
+						// a containment predicate given the whole interval (its own table is decided above)
+						if call, ok := pc.(*ssa.Call); ok && an.StaticCallee(call) != nil && an.InModule(an.StaticCallee(call)) {
+							for _, a := range call.Call.Args {
+								if strings.HasSuffix(an.ShortType(a.Type()), "Interval") {
+									roots[an.Path(a)] = true
+								}
+							}
+						}
+					}
 					if cmp, ok := iff.Cond.(*ssa.BinOp); ok {
 						for _, v := range []ssa.Value{cmp.X, cmp.Y} {
 							if c, isCall := v.(*ssa.Call); isCall && strings.HasPrefix(an.CalleeName(c), "(*go/ast.Comment).") {
@@ -597,4 +618,111 @@ func isCommentGroupList(t types.Type) bool {
 	}
 	p, ok := sl.Elem().Underlying().(*types.Pointer)
 	return ok && an.IsNamed(p.Elem(), "go/ast", "CommentGroup")
+}
+
+// containmentPredicate decides a call `h(interval, comment)` to a module
+// function returning bool: when every path of h returns true exactly when
+// c.Pos() >= start && c.End() <= end it is the atom "inside", when it returns
+// exactly the negation "not:inside"; anything else is unrecognised.
+func containmentPredicate(call *ssa.Call, elem func(ssa.Value) bool, classifyWith func(ssa.Value, func(ssa.Value, string) bool, func(ssa.Value) bool, func(ssa.Value) bool, int) string) string {
+	h := an.StaticCallee(call)
+	if h == nil || !an.InModule(h) || h.Blocks == nil || h.Signature.Results().Len() != 1 {
+		return ""
+	}
+	var cp, ip *ssa.Parameter
+	for i, a := range call.Call.Args {
+		if i >= len(h.Params) {
+			return ""
+		}
+		switch {
+		case elem(a):
+			cp = h.Params[i]
+		case strings.HasSuffix(an.ShortType(a.Type()), "Interval"):
+			ip = h.Params[i]
+		default:
+			return ""
+		}
+	}
+	if cp == nil || ip == nil {
+		return ""
+	}
+	posOf := func(v ssa.Value, method string) bool {
+		c, ok := v.(*ssa.Call)
+		return ok && an.IsCallTo(c, "(*go/ast.Comment)."+method) && c.Call.Args[0] == ssa.Value(cp)
+	}
+	field := func(name string) func(ssa.Value) bool {
+		return func(v ssa.Value) bool {
+			return !isAddr(v) && an.Path(v) == ip.Name()+"."+name
+		}
+	}
+	paths, err := an.EnumeratePaths(h, func(c ssa.Value) string {
+		return classifyWith(c, posOf, field("Start"), field("End"), 1)
+	}, nil, 64)
+	if err != nil {
+		return ""
+	}
+	same, neg := len(paths) > 0, len(paths) > 0
+	for _, p := range paths {
+		ret, ok := p.End.Instrs[len(p.End.Instrs)-1].(*ssa.Return)
+		if !ok {
+			return ""
+		}
+		res := p.ResolveOnPath(ret.Results[0])
+		type row struct {
+			atoms map[string]bool
+			val   bool
+		}
+		var rows []row
+		if val, isc := an.ConstBool(res); isc {
+			rows = append(rows, row{p.Atoms, val})
+		} else {
+			// the returned value is itself a comparison: one row per outcome
+			inner, pos := an.StripNot(res)
+			name := classifyWith(inner, posOf, field("Start"), field("End"), 1)
+			if name == "" {
+				return ""
+			}
+			for _, v := range []bool{true, false} {
+				if fixed, seen := p.Atoms[name]; seen && fixed != v {
+					continue
+				}
+				m := map[string]bool{name: v}
+				for k, x := range p.Atoms {
+					m[k] = x
+				}
+				rows = append(rows, row{m, v == pos})
+			}
+		}
+		for _, rw := range rows {
+			get := func(a string) (bool, bool) {
+				if v, ok := rw.atoms[a]; ok {
+					return v, true
+				}
+				if v, ok := rw.atoms["not:"+a]; ok {
+					return !v, true
+				}
+				return false, false
+			}
+			lo, loK := get("pos>=start")
+			hi, hiK := get("end<=end")
+			inside := loK && lo && hiK && hi
+			outside := (loK && !lo) || (hiK && !hi)
+			if !(inside || outside) {
+				return ""
+			}
+			if rw.val != inside {
+				same = false
+			}
+			if rw.val == inside {
+				neg = false
+			}
+		}
+	}
+	switch {
+	case same:
+		return "inside"
+	case neg:
+		return "not:inside"
+	}
+	return ""
 }
